@@ -77,6 +77,7 @@ MUTANTS = [
     ("m13_hash_map_written_before_page_commit", "C13", H, "            session.repo.add_file(zorg_page)\n            session.commit()\n            if zorg_page.events:\n", "            session.repo.add_file(zorg_page)\n            _write_file_hash_to_disk(file_hash_path, old_file_to_hash | {zorg_page_name: hash_})\n            session.commit()\n            if zorg_page.events:\n"),
     ("m13_piecemeal_commits_in_remove", "C13", R, "        self._session.flush()\n        self._session.expire_all()\n", "        self._session.commit()\n"),
     ("m13_hashes_of_changed_files_not_forgotten", "C13", H, "    if changed_files & old_file_to_hash.keys():\n", "    if False and changed_files & old_file_to_hash.keys():\n"),
+    ("m13_hashes_of_deleted_files_not_forgotten", "C13", H, "        changed_files |= old_file_to_hash.keys() - file_to_hash.keys()\n", "        pass\n"),
     # ---------------------------------------------------------------- C14
     ("m14_anchor_links_not_retargeted", "C14", RF, '        f"[[{src_link_name}#": f"[[{dest_link_name}#",\n', ""),
     ("m14_prefix_replace", "C14", RF, '        f"[[{src_link_name}]": f"[[{dest_link_name}]",\n', '        f"[[{src_link_name}": f"[[{dest_link_name}",\n'),
